@@ -59,14 +59,12 @@ def WellTyped {κ : Type} [DecidableEq κ] (fs : List (Formal κ)) (args : List 
 /-- **three_agree.**  For every signature (any number of formals, variadic or not, any type-constraint
 names), every argument list (tensors of any dtype known or unknown to the builder, literals, absent
 optionals, any length) that is well typed and whose literals are representable in the dtype the rule
-assigns them (`allRepresentable`: homogeneous lists; ints in range of the target and of INT64 /
-exactly representable in the target float; floats exactly float32 unless the target is FLOAT): the
-converter's `static_cast_inputs`, eager mode's `dynamic_cast_inputs` and the builder's `_cast_inputs`
-all produce exactly the operands the rule prescribes — same dtype, same rank, same value — or all three
-refuse the call (too many arguments).  The range/float32 parts of the hypothesis are forced: see the two
-`…_full_refuted_…` theorems (findings D21, D23).  "Homogeneous lists" is, since fix fa769b8 (finding D24), a
-limitation of this proof only: on lists mixing Python types the three front ends agree as well
-(`three_agree_dtype` for the element types, `decide` examples below and the per-run tie for the values). -/
+assigns them (`allRepresentable`: ints in range of the target and of INT64 / exactly representable in the target
+float; floats exactly float32 unless the target is FLOAT; an int inside a list that NumPy infers as DOUBLE at most
+2^53 in magnitude — lists mixing Python types are included): the converter's `static_cast_inputs`, eager mode's
+`dynamic_cast_inputs` and the builder's `_cast_inputs` all produce exactly the operands the rule prescribes — same
+dtype, same rank, same value — or all three refuse the call (too many arguments).  The range/float32 hypotheses are
+forced: see the two `…_full_refuted_…` theorems (findings D21, D23). -/
 theorem three_agree {κ : Type} [DecidableEq κ] (fs : List (Formal κ)) (args : List Arg)
     (hwt : WellTyped fs args) (hrep : allRepresentable fs args = true) :
     castStatic fs args = expected fs args ∧ castDynamic fs args = expected fs args
@@ -130,6 +128,11 @@ example : WellTyped sigTT [.tensor .float16 true, .lit (.s (.i 1))] ∧
     castStatic sigTT [.tensor .float16 true, .lit (.s (.i 1))]
       = .ok [.pass .float16, .const .float16 false [.f false 1 1 false]] :=
   ⟨wellTyped_one_tensor _ _ _ (by intro d k h; cases h), by decide, by decide⟩
+
+/-- Non-vacuity of `three_agree` on a list mixing Python types: `Add(x : INT64, [1, 2.5])` satisfies both hypotheses. -/
+example : WellTyped sigTT [.tensor .int64 true, .lit (.l (.i 1) [.f false 5 2])] ∧
+    allRepresentable sigTT [.tensor .int64 true, .lit (.l (.i 1) [.f false 5 2])] = true :=
+  ⟨wellTyped_one_tensor _ _ _ (by intro d k h; cases h), by decide⟩
 
 /-- Full statement without `allRepresentable`, refuted (finding **D21**): `x : UINT8 + (-3)` — the converter's
 `CastLike` wraps to 253, eager mode and the builder raise `OverflowError`. -/
@@ -437,6 +440,32 @@ example :
       [.ok [⟨.pass .float, none⟩, ⟨.const .float false [.f false 0 1 false], some (.scalar (.f false 0 1) (some .float))⟩],
        .ok [⟨.const .float false [.f true 0 1 false], some (.scalar (.f true 0 1) (some .float))⟩,
             ⟨.const .float false [.f false 0 1 false], some (.scalar (.f false 0 1) (some .float))⟩]] := by decide
+
+/-! ### Function bodies (`build_function` + `lift_initializers_to_constants`) -/
+
+/-- **function_body_feeds_same_operands.**  For every signature and argument list: tracing the call as the body of an
+`ir.Function` (`build_function`: fresh builder, then every initializer lifted to a `Constant(value = tensor)` node)
+feeds the operator exactly the operands of `castBuilder` — lifting changes neither dtype, rank nor value of a promoted
+literal.  (A lifting that used the compact `value_float`/`value_int` forms would not: see the example.) -/
+theorem function_body_feeds_same_operands {κ : Type} [DecidableEq κ] (fs : List (Formal κ)) (args : List Arg) :
+    castBuilderFunction fs args = castBuilder fs args := by
+  have h := (castBuilderC_spec [] (fun e he => by cases he) fs args).1
+  unfold castBuilderFunction
+  cases hr : (castBuilderC [] fs args).2 with
+  | error e => rw [hr] at h; exact h
+  | ok os =>
+    rw [hr] at h
+    rw [← h]
+    simp only [outsOf]
+    congr 1
+    apply List.map_congr_left
+    intro o _
+    unfold liftOperand
+    cases o.out <;> rfl
+
+/-- Why the form matters: a FLOAT16 literal lifted as `value_float` would denote a FLOAT tensor. -/
+example : (liftInitializer .float16 false [.f false 1 2 false]).denote = .const .float16 false [.f false 1 2 false]
+    ∧ (ConstAttr.valueFloat (.f false 1 2 false)).denote ≠ .const .float16 false [.f false 1 2 false] := by decide
 
 /-! ### The cache before fix F8 (commit 610a39a) — kept for the record; no tie to the current code -/
 
